@@ -14,6 +14,7 @@ INVARIANT MetaTruthful
 INVARIANT WF
 INVARIANT DiagSound
 INVARIANT LazyPromise
+INVARIANT ExecOnce
 INVARIANT RejectsAll
 INVARIANT EmitState
 PROPERTY NoOpIdentity
